@@ -413,34 +413,47 @@ func families(thorough bool) []family {
 		}})
 
 	// ---- rpm ----
+	// start states: room for the new signature header {4.5 KiB reserve (fixture), 4 KiB reserve,
+	// none} x existing signature {none, third party RSA-4096 (fixture), third party RSA-2048};
+	// keys of two sizes (rpm.go). The second family sweeps the size of the reserve across the
+	// point where the new header stops fitting, to depth 2.
+	rpmCount := func(p *payload.Payload, data []byte) (int, []string) {
+		tags, _ := payload.RPMSigTags(data)
+		n := 0
+		var names []string
+		seen := map[int]int{}
+		for _, t := range tags {
+			seen[t]++
+			switch t {
+			case 268, 267, 1002, 1005: // RSAHEADER, DSAHEADER, PGP, GPG
+				names = append(names, fmt.Sprintf("sigtag-%d", t))
+			}
+		}
+		for t, c := range seen {
+			if c > 1 {
+				names = append(names, fmt.Sprintf("DUPLICATE-tag-%d", t))
+				n += 10
+			}
+		}
+		// one header-only signature (+ at most one header+payload signature) of one key type
+		hdr := seen[268] + seen[267]
+		if hdr == 1 && seen[1002]+seen[1005] <= 1 && n == 0 {
+			return 1, names
+		}
+		return hdr + seen[1002] + seen[1005] + n, names
+	}
 	fams = append(fams, family{Type: "rpm", PType: "rpm", Ext: ".rpm", PGP: true,
-		Starts: []start{{ID: "rpm/fixture:signed-by-rocky", Build: fixed(shapes.Fixture("rocky-basesystem-11-13.el9.noarch.rpm")), Signed: true}},
-		Ops:    stdOps("rpm", crypto.SHA512, "", nil, nil, thorough, pgpKeys),
-		CountSigs: func(p *payload.Payload, data []byte) (int, []string) {
-			tags, _ := payload.RPMSigTags(data)
-			n := 0
-			var names []string
-			seen := map[int]int{}
-			for _, t := range tags {
-				seen[t]++
-				switch t {
-				case 268, 267, 1002, 1005: // RSAHEADER, DSAHEADER, PGP, GPG
-					names = append(names, fmt.Sprintf("sigtag-%d", t))
-				}
-			}
-			for t, c := range seen {
-				if c > 1 {
-					names = append(names, fmt.Sprintf("DUPLICATE-tag-%d", t))
-					n += 10
-				}
-			}
-			// one header-only signature (+ at most one header+payload signature) of one key type
-			hdr := seen[268] + seen[267]
-			if hdr == 1 && seen[1002]+seen[1005] <= 1 && n == 0 {
-				return 1, names
-			}
-			return hdr + seen[1002] + seen[1005] + n, names
-		}})
+		Starts: []start{{ID: "rpm/fixture:signed-by-rocky", Build: fixed(shapes.Fixture("rocky-basesystem-11-13.el9.noarch.rpm")), Signed: true},
+			rpmUnsigned(-1), rpmUnsigned(4128), rpmThirdParty(-1)},
+		Ops:       stdOps("rpm", crypto.SHA512, "", nil, nil, thorough, rpmKeys),
+		CountSigs: rpmCount, Judge: rpmJudge})
+	var sweep []start
+	for _, r := range rpmSweep(thorough) {
+		sweep = append(sweep, rpmThirdParty(r))
+	}
+	fams = append(fams, family{Type: "rpm", PType: "rpm", Ext: ".rpm", PGP: true, MaxDepth: 2,
+		Starts: sweep, Ops: stdOps("rpm", crypto.SHA512, "", nil, nil, thorough, rpmKeys),
+		CountSigs: rpmCount, Judge: rpmJudge})
 
 	// ---- Apple ----
 	slim := shapes.Fixture("slimfile.app/dummyapp")
@@ -454,7 +467,10 @@ func families(thorough bool) []family {
 		}
 	}
 	fams = append(fams, family{Type: "mach-o", PType: "macho", Ext: ".macho", Starts: machoStarts,
-		Ops: stdOps("mach-o", crypto.SHA384, "", nil, nil, thorough, x509Keys),
+		Ops: stdOps("mach-o", crypto.SHA384, "bundle-id", url.Values{}, url.Values{"bundle-id": {"org.example.c08"}}, thorough, x509Keys),
+		Judge: func(e *env, parent, data []byte, o *op) (map[string]string, []problem) {
+			return appleJudge(payload.MachOSignature(data))
+		},
 		Digest: func(path string, h crypto.Hash) (map[string]string, error) {
 			data, err := os.ReadFile(path)
 			if err != nil {
@@ -483,7 +499,10 @@ func families(thorough bool) []family {
 		CountSigs: func(p *payload.Payload, data []byte) (int, []string) { return len(p.SigItems), p.SigItems }})
 	fams = append(fams, family{Type: "dmg", PType: "dmg", Ext: ".dmg",
 		Starts: []start{{ID: "dmg/fixture:dummy.dmg", Build: fixed(shapes.Fixture("dummy.dmg"))}},
-		Ops:    stdOps("dmg", crypto.SHA384, "", nil, nil, thorough, x509Keys),
+		Ops:    stdOps("dmg", crypto.SHA384, "bundle-id", url.Values{}, url.Values{"bundle-id": {"org.example.c08"}}, thorough, x509Keys),
+		Judge: func(e *env, parent, data []byte, o *op) (map[string]string, []problem) {
+			return appleJudge(payload.DMGSignature(data))
+		},
 		Digest: func(path string, h crypto.Hash) (map[string]string, error) {
 			data, err := os.ReadFile(path)
 			if err != nil {
